@@ -70,13 +70,20 @@ def errName : Err → String
 /-- what one request evaluates to: new inner state and one `Option α` per input -/
 abbrev Out (α : Type) := Except String (List α × List (Option α))
 
-def pick (op : String) (f b j : α → Option α) (censor : Option α) : Option (α → Option α) :=
+/-- how `backward_censored` is evaluated at the carrier: the model's definition at `Float`; at `EF` the same
+values with the bound of a continuous `max` (the larger of the two operands' bounds, whichever is selected) -/
+class Cens (α : Type) where
+  cens : (α → Option α) → (α → Option α) → α → α → Option α
+
+def pick [Cens α] (op : String) (f b j : α → Option α) (censor : Option α) : Option (α → Option α) :=
   match op, censor with
   | "fwd", _ => some f
   | "bwd", _ => some b
   | "jac", _ => some j
-  | "cens", some c => some fun y => backwardCensored f b y c
+  | "cens", some c => some fun y => Cens.cens f b y c
   | _, _ => none
+
+variable [Cens α]
 
 def stateless (op : String) (f b j : α → Option α) (censor : Option α) (xs : List α) : Out α :=
   match pick op f b j censor with
@@ -150,6 +157,20 @@ def runSoftmax (op : String) (rows : List (List α)) : Except String (List (List
     | .error e => .error (errName e)
   | _ => .error "bad-op"
 end
+
+instance : Cens Float := ⟨fun f b y c => backwardCensored f b y c⟩
+
+instance : Cens EF := ⟨fun f b y c =>
+  let te : Float := match f c with
+    | some t => if t.v.isNaN then 0.0 else t.e
+    | none => 0.0
+  let yc : EF := match f c with
+    | none => y
+    | some t => if t.v.isNaN then y else maxv y t
+  let yc' : EF := ⟨yc.v, if yc.e < te then te else yc.e⟩
+  (b yc').map fun r =>
+    let m := maxv r c
+    ⟨m.v, if m.e < r.e then r.e else m.e⟩⟩
 
 def optF (x : Float) : Option Float := if x.isNaN then none else some x
 def optEF (x : Float) : Option EF := if x.isNaN then none else some (EF.ofF x)
